@@ -59,3 +59,22 @@ func (c *vRecConn) Close() error { c.closed++; return nil }
 type vBufW struct{ b []byte }
 
 func (w *vBufW) Write(p []byte) (int, error) { w.b = append(w.b, p...); return len(p), nil }
+
+func c02UploadStream(name, data []byte) []byte {
+	s := []byte{'F', 'I', 'L', 'P', 0, 1}
+	s = append(s, make([]byte, 16)...)
+	s = append(s, 0, 2)
+	s = append(s, 'I', 'N', 'F', 'O', 0, 0, 0, 0, 0, 0, 0, 0)
+	s = append(s, refU32(72+len(name)+2)...)
+	s = append(s, 'A', 'M', 'A', 'C', 'T', 'E', 'X', 'T', 't', 't', 'x', 't')
+	s = append(s, make([]byte, 8+32+16)...)
+	s = append(s, 0, 0)
+	s = append(s, refU16(len(name))...)
+	s = append(s, name...)
+	s = append(s, 0, 0)
+	s = append(s, 'D', 'A', 'T', 'A', 0, 0, 0, 0, 0, 0, 0, 0)
+	s = append(s, refU32(len(data))...)
+	s = append(s, data...)
+	return s
+}
+
